@@ -80,7 +80,7 @@ func plainCols(t *Table) []Col {
 func randCol(r *rng.R, t *Table, strict bool) Col {
 	c := Col{Name: freshCol(r, t)}
 	if strict {
-		c.Type = rng.Pick(r, strictTypes[:5])
+		c.Type = rng.Pick(r, strictTypes) // includes ANY: values are kept verbatim in a STRICT table
 	} else {
 		c.Type = rng.Pick(r, typeCat)
 	}
@@ -261,9 +261,16 @@ var realVals = []string{"0.0", "1.5", "-2.25", "1e100", "3.0", "0.1", "123456789
 var textVals = []string{"''", "'a'", "'it''s'", "'héllo'", "'NULL'", "'123'", "' sp '", "'x`y'", "'ABC'", "'long long long long text value'", "'1.0'", "'d'", "'line1' || char(10) || 'line2'", "''''", "'\U0001F600 z\u00fc'", "'tab' || char(9)"}
 var blobVals = []string{"x''", "x'00'", "x'deadbeef'", "x'27'", "x'6162'"}
 
+// values whose stored form depends on the typing rules of the table: kept verbatim in an ANY column
+// of a STRICT table, converted by NUMERIC affinity in an ordinary one
+var anyVals = []string{"'007'", "'1e3'", "' 12'", "'0x10'", "'-0'", "'1.0'", "'abc'", "5", "1.5", "x'00'", "'12abc'", "''"}
+
 func genValue(r *rng.R, c Col, strict bool) string {
 	if !c.NotNull && r.Chance(1, 4) {
 		return "NULL"
+	}
+	if c.Type == "any" {
+		return rng.Pick(r, anyVals)
 	}
 	aff := affinity(c.Type)
 	if !strict && r.Chance(1, 10) {
